@@ -301,6 +301,8 @@ class SVGLexicalParser:
             kind = match.lastgroup
             if kind == "CLOSE":
                 # Inline Close
+                if self.parser.z_point is None:
+                    raise ValueError  # No subpath start to complete the segment to.
                 self.inline_close = match.group()
                 return None
             self.pos = match.end()
